@@ -446,3 +446,44 @@ func regionFns(c *Ctx, root *ssa.Function, exclude map[*ssa.Function]bool, depth
 	walk(root, 0)
 	return out
 }
+
+// ruleLoopVar: no goroutine started in a loop shares a loop-carried variable with later iterations (C15: a handler would
+// report and serve the next connection instead of its own; C18: the skipped connection is never closed; C19: a data race).
+func ruleLoopVar(c *Ctx, rule string, pkgs ...string) {
+	n := 0
+	for _, f := range c.P.Fns {
+		if c.P.IsTestSupport(f) {
+			continue
+		}
+		okPkg := len(pkgs) == 0
+		for _, pk := range pkgs {
+			if eng.PkgPathOf(f) == eng.Mod+"/"+pk {
+				okPkg = true
+			}
+		}
+		if !okPkg {
+			continue
+		}
+		inLoop := false
+		loops := eng.Loops(f)
+		for _, b := range f.Blocks {
+			for _, ins := range b.Instrs {
+				if _, ok := ins.(*ssa.Go); ok && eng.InnermostLoop(loops, b) != nil {
+					inLoop = true
+				}
+			}
+		}
+		if !inLoop {
+			continue
+		}
+		n++
+		caps := c.P.GoLoopCaptures(f)
+		c.Check(rule, short(f)+":goroutines-own-their-iteration's-variables", c.P.Pos(f.Pos()), len(caps) == 0, func() string {
+			if len(caps) == 0 {
+				return ""
+			}
+			return fmt.Sprintf("the goroutine started at %s captures by reference the variable %s, which is declared outside the loop and assigned in it (per-loop, not per-iteration): when the next iteration assigns it before the goroutine reads it, two goroutines handle the same connection and one connection is never handled, reported or closed", c.P.IPos(caps[0].Go), caps[0].Cell.Comment)
+		}())
+	}
+	c.Floor(rule, "functions that start goroutines inside a loop", n, 1)
+}
